@@ -243,7 +243,7 @@ theorem varReads_sub (k : Kind) (hk : k.isExact = false) (training : Bool) (c : 
     rcases h with h | h | h <;> simp [h]
   · unfold varReads at h
     simp only [slotsOf]
-    cases training <;> (by_cases hc : c = .cg) <;> simp [hc] at h ⊢ <;> (rcases h with h | h | h) <;> simp_all
+    cases training <;> cases hc : c.noCholesky <;> simp [hc] at h ⊢ <;> (rcases h with h | h | h) <;> simp_all
 
 /-! ### One call preserves the invariant and answers in closed form -/
 
